@@ -141,3 +141,116 @@ theorem childSpans_props {b : Bytes} {h : Nat} {cs : List (Nat × Nat)} {ind : B
     · simp only [hm, if_false] at hc; cases hc
 
 end GV.Cbor
+
+/-! ### locality: the children of an item do not depend on what follows the item -/
+namespace GV.Cbor
+
+theorem spansDef_append (r : Bytes) : ∀ (n : Nat) (rest : Bytes) (pos : Nat) (cs : List (Nat × Nat)),
+    spansDef n rest pos = some cs → spansDef n (rest ++ r) pos = some cs := by
+  intro n
+  induction n with
+  | zero => intro rest pos cs h; simpa [spansDef] using h
+  | succ n ih =>
+    intro rest pos cs h
+    simp only [spansDef] at h ⊢
+    cases hw : wfItem rest with
+    | needMore => rw [hw] at h; cases h
+    | bad => rw [hw] at h; cases h
+    | ok l =>
+      rw [hw] at h; simp only at h
+      have hl := wf_consumes_le hw
+      rw [wf_append hw r]; simp only
+      rw [List.drop_append_of_le_length hl.2]
+      cases hr : spansDef n (rest.drop l) (pos + l) with
+      | none => rw [hr] at h; cases h
+      | some cs' =>
+        rw [hr] at h
+        rw [ih _ _ _ hr]
+        exact h
+
+theorem spansIndef_append (r : Bytes) : ∀ (f : Nat) (rest : Bytes) (pos : Nat) (cs : List (Nat × Nat))
+    (k : Nat), spansIndef f rest pos = some cs → spansIndef (f + k) (rest ++ r) pos = some cs := by
+  intro f
+  induction f with
+  | zero => intro rest pos cs k h; simp [spansIndef] at h
+  | succ f ih =>
+    intro rest pos cs k h
+    cases rest with
+    | nil => simp [spansIndef] at h
+    | cons x tl =>
+      have e : f + 1 + k = (f + k) + 1 := by omega
+      rw [e]
+      simp only [spansIndef, List.cons_append] at h ⊢
+      by_cases hx : x = 0xff
+      · simp only [hx, if_true] at h ⊢; exact h
+      · simp only [hx, if_false] at h ⊢
+        cases hw : wfItem (x :: tl) with
+        | needMore => rw [hw] at h; cases h
+        | bad => rw [hw] at h; cases h
+        | ok l =>
+          rw [hw] at h; simp only at h
+          have hl := wf_consumes_le hw
+          have := wf_append hw r
+          simp only [List.cons_append] at this
+          rw [this]; simp only
+          have hd : (x :: (tl ++ r)).drop l = (x :: tl).drop l ++ r := by
+            rw [← List.cons_append, List.drop_append_of_le_length hl.2]
+          rw [hd]
+          cases hr : spansIndef f ((x :: tl).drop l) (pos + l) with
+          | none => rw [hr] at h; cases h
+          | some cs' =>
+            rw [hr] at h
+            rw [ih _ _ _ k hr]
+            exact h
+
+/-- `childSpans` looks only at the item itself. -/
+theorem childSpans_append {x : Bytes} {res : Nat × List (Nat × Nat) × Bool} (t : Bytes)
+    (h : childSpans x = some res) : childSpans (x ++ t) = some res := by
+  unfold childSpans at h ⊢
+  cases hrh : readHead x with
+  | short => rw [hrh] at h; cases h
+  | mk major ai arg hlen =>
+    rw [hrh] at h
+    rw [readHead_append hrh]
+    simp only at h ⊢
+    have hb := readHead_bounds hrh
+    rw [List.drop_append_of_le_length hb.2]
+    split at h
+    · rename_i hm
+      simp only [hm, if_true]
+      split at h
+      · rename_i hai
+        simp only [hai, if_true]
+        cases hs : spansIndef x.length (x.drop hlen) hlen with
+        | none => rw [hs] at h; cases h
+        | some cs =>
+          rw [hs] at h
+          have := spansIndef_append t _ _ _ _ t.length hs
+          rw [List.length_append, this]
+          exact h
+      · rename_i hai
+        simp only [hai, if_false]
+        split at h
+        · cases h
+        · rename_i h28
+          simp only [h28, if_false]
+          cases hs : spansDef (if major = 4 then arg else 2 * arg) (x.drop hlen) hlen with
+          | none => rw [hs] at h; cases h
+          | some cs =>
+            rw [hs] at h
+            rw [spansDef_append t _ _ _ _ hs]
+            exact h
+    · cases h
+
+theorem slice_append_left (x t : Bytes) (o l : Nat) (h : o + l ≤ x.length) :
+    slice (x ++ t) o l = slice x o l := by
+  unfold slice
+  rw [List.drop_append_of_le_length (by omega), List.take_append_of_le_length]
+  simp only [List.length_drop]; omega
+
+/-- a well-formed item never starts with the break byte -/
+theorem wfItem_break_ne_ok (tl : Bytes) (n : Nat) : wfItem ((0xff : UInt8) :: tl) ≠ .ok n := by
+  rw [wfItem_eq]
+  simp [runS, step, readHead, argLen, beNat, action, brkOk]
+
+end GV.Cbor
